@@ -224,6 +224,10 @@ var c07AllOf = map[string]any{
 	"AnyOfPlain": map[string]any{"anyOf": []any{map[string]any{"$ref": "#/components/schemas/Leaf"}, map[string]any{"$ref": "#/components/schemas/Other"}}},
 	"OneOfFixed": map[string]any{"type": "object", "properties": map[string]any{"name": map[string]any{"type": "string"}},
 		"oneOf": []any{map[string]any{"$ref": "#/components/schemas/Leaf"}, map[string]any{"$ref": "#/components/schemas/Other"}}},
+	// a union with own declared members AND additional members: the declared ones must not come back a second time as
+	// additional ones (they would shadow the declared value on encoding)
+	"OneOfFixedOpen": map[string]any{"type": "object", "properties": map[string]any{"name": map[string]any{"type": "string"}, "serial": map[string]any{"type": "integer", "format": "int64"}},
+		"additionalProperties": true, "oneOf": []any{map[string]any{"$ref": "#/components/schemas/Leaf"}, map[string]any{"$ref": "#/components/schemas/Other"}}},
 	"Other": map[string]any{"type": "object", "required": []string{"w"}, "properties": map[string]any{"w": map[string]any{"type": "integer", "format": "int64"}, "v": map[string]any{"type": "number"}}},
 }
 
@@ -495,6 +499,11 @@ func runC07(r *Report, rng *rand.Rand, thorough bool) {
 					addl = "int"
 				case "AllOfPlain":
 					addl = ""
+				case "OneOfFixedOpen":
+					// member integers stay small (a recorded finding of C09 narrows the big ones of the MEMBER); the declared
+					// serial takes the boundary values
+					inst = map[string]any{"x": mStrings[rng.Intn(len(mStrings))], "y": rng.Intn(100), "name": mStrings[rng.Intn(len(mStrings))],
+						"serial": []int64{math.MaxInt64, 9007199254740993, 7}[k%3], "extra": "e"}
 				case "OneOfPlain", "AnyOfPlain", "OneOfFixed", "Other":
 					addl = ""
 					big := []int64{math.MaxInt64, math.MinInt64, 9007199254740993, 1 << 53, -1}
@@ -513,7 +522,12 @@ func runC07(r *Report, rng *rand.Rand, thorough bool) {
 				b, _ := json.Marshal(inst)
 				id := fmt.Sprintf("%s/%s/%d", pkg, tn, k)
 				scenarios = append(scenarios, map[string]any{"id": id, "pkg": pkg, "opts": map[string]any{"short_circuit": -1, "strict_short_circuit": -1}, "round": map[string]any{"type": tn, "json": json.RawMessage(b)}})
-				metas[id] = meta{mSchema{Name: tn, Addl: addl}, inst, true, false} // nt=true: kept out of the plain-struct model tie
+				ms := mSchema{Name: tn, Addl: addl}
+				if tn == "OneOfFixedOpen" {
+					// its own declared members: a change of THEIR values is not the recorded float64 narrowing of additional ones
+					ms.Fields = []mField{{Name: "name", Kind: "string"}, {Name: "serial", Kind: "int64"}}
+				}
+				metas[id] = meta{ms, inst, true, false} // nt=true: kept out of the plain-struct model tie
 			}
 		}
 	}
